@@ -59,7 +59,10 @@ Section Proofs.
   Proof. intros; unfold abort; repeat constructor. Qed.
 
   Lemma tail_fail_local : forall f, Forall (local tfd (ftmp f)) (tail_fail f).
-  Proof. intros; unfold tail_fail. apply Forall_app; split; [apply wr_local|apply abort_local]. Qed.
+  Proof.
+    intros; unfold tail_fail. apply Forall_app; split; [|apply abort_local].
+    induction (fextra f) as [|o l IH]; simpl; constructor; auto. destruct o; simpl; auto.
+  Qed.
 
   Lemma writes_all_local : forall f cs,
     Forall (all_local tfd (ftmp f)) (map (fun c => (Write tfd c, tail_fail f)) cs).
